@@ -73,7 +73,7 @@ func newChild(s *Step) (*security.ChildSAKey, error) {
 		bits := uint16(s.ChildEncr * 8)
 		p.EncryptionAlgorithm.BuildTransform(1, 12, &at, &bits, nil)
 		p.IntegrityAlgorithm.BuildTransform(3, refIntegID(s.ChildInteg), nil, nil, nil)
-		p.ExtendedSequenceNumbers.BuildTransform(5, 0, nil, nil, nil)
+		p.ExtendedSequenceNumbers.BuildTransform(5, uint16(len(s.Nonce)%2), nil, nil, nil) // ESN off / on
 		return security.NewChildSAKeyByProposal(p)
 	}
 	c := &security.ChildSAKey{EncrKInfo: libEncrK(s.ChildEncr)}
